@@ -76,7 +76,11 @@ PARAM_KINDS = {
     "FieldSet": (D(UNK), "list (str * option num)"), "TagSet": (D(UNK), "list (str * option str)"),
     "Set[int]": (("set",), "list nat"), "Dict[int, int]": (D(INT), "pydict nat nat"),
     "List[Point]": (L(POINT), "list point"), "Iterable[Point]": (L(POINT), "list point"),
+    "Optional[str]": (("ostr",), "option str"),
 }
+# methods that only READ the object and return a value: (name, Coq result type, kind of the result)
+GETTERS = [("__len__", "nat", INT), ("valid", "bool", BOOL), ("get_measurements", "list str", ("set",)), ("get_timestamps", "list Z", L(TIME)),
+           ("get_field_values", "list (option num)", L(UNK))]
 METHODS = ["__init__", "_reset", "invalidate", "_insert_time", "_insert_measurements", "_insert_tags", "_insert_fields", "insert", "build",
            "_remove_timestamps", "_remove_measurements", "_remove_tags", "_remove_fields", "remove",
            "_update_timestamps", "_update_measurements", "_update_tags", "_update_fields", "update"]
@@ -160,6 +164,10 @@ class Compiler:
             raise Refuse(f"constant `{U(e)}`")
         if isinstance(e, ast.Name):
             t, k, _, _ = self.path(e, env)
+            if k == ("ostr",):
+                if ("truthy", e.id) not in env.facts:
+                    raise Refuse(f"`{e.id}` (an optional string) is used as a string where it is not known to be one")
+                return f"(opt_str {t})", STR
             return t, k
         if isinstance(e, ast.Attribute):
             if isinstance(e.value, ast.Name) and e.value.id == "self":
@@ -230,6 +238,21 @@ class Compiler:
                 a = self.ex(e.args[0], env)
                 if a[1][0] in ("list", "set", "dict"):
                     return f"(length {a[0]})", INT
+            if isinstance(f, ast.Name) and f.id in ("set", "list") and len(e.args) == 1 and not e.keywords:
+                a = self.ex(e.args[0], env)
+                if a[1][0] in ("list", "set"):
+                    return a[0], (("set",) if f.id == "set" else L(a[1][1] if a[1][0] == "list" else UNK))       # a set of positions is a list read through `mem`
+                raise Refuse(f"call `{U(e)}`")
+            if isinstance(f, ast.Name) and f.id == "sorted" and len(e.args) == 1 and [U(k) for k in e.keywords] == ["key=lambda x: x[1]"]:
+                a = self.ex(e.args[0], env)
+                if a[1][0] == "list" and a[1][1][0] == "tuple" and a[1][1][2] == INT and a[1][1][1] == TIME:
+                    return f"(sort_by_second {a[0]})", a[1]
+                raise Refuse(f"`{U(e)}`: sorted by the second component of something that is not a list of (stamp, position) pairs")
+            if isinstance(f, ast.Attribute) and f.attr == "keys" and not e.args and not e.keywords:
+                a = self.ex(f.value, env)
+                if a[1][0] == "dict":
+                    return f"(map fst {a[0]})", L(STR)
+                raise Refuse(f"call `{U(e)}`")
             if isinstance(f, ast.Attribute) and f.attr == "timestamp" and not e.args and not e.keywords:
                 a = self.ex(f.value, env)
                 if a[1] == TIME:
@@ -275,7 +298,12 @@ class Compiler:
                 if ak == INT and bk == INT:
                     r = f"(Nat.eqb {at} {bt})"
                     return r if isinstance(op, ast.Eq) else f"(negb {r})"
+                if STR in (ak, bk) and ak in (STR, UNK) and bk in (STR, UNK):
+                    r = f"(pyeq {at} {bt})"          # == on strings (Coq's type checker rejects a non-string operand)
+                    return r if isinstance(op, ast.Eq) else f"(negb {r})"
             raise Refuse(f"comparison `{U(e)}`")
+        if isinstance(e, ast.Name) and env.kinds.get(e.id) == ("ostr",):
+            return f"(opt_truthy {e.id})"
         t, k = self.ex(e, env)
         if k == BOOL:
             return t
@@ -289,6 +317,8 @@ class Compiler:
         """facts a test establishes in its true / false branch"""
         if isinstance(test, ast.UnaryOp) and isinstance(test.op, ast.Not):
             return self.assume(test.operand, env, not truth)
+        if isinstance(test, ast.Name) and env.kinds.get(test.id) == ("ostr",) and truth:
+            return env.copy(facts=env.facts | {("truthy", test.id)})
         if isinstance(test, ast.Compare) and len(test.ops) == 1 and isinstance(test.ops[0], (ast.In, ast.NotIn)):
             present = isinstance(test.ops[0], ast.In) == truth
             if present and self.is_pathlike(test.comparators[0]):
@@ -420,6 +450,8 @@ class Compiler:
                 raise Refuse(f"assignment to `{U(target)}`")
             a = target.attr
             ptxt = U(target)
+            if self.getter is not None:
+                raise Refuse(f"a method that returns a value assigns self.{a}")
             env = self.note_write(ptxt, env)
             facts = frozenset(f for f in env.facts if not overlaps(f[0], ptxt))
             inited = None if env.inited is None else env.inited | {a}
@@ -450,6 +482,13 @@ class Compiler:
             return self.blk(rest, env2, final, in_loop)
         if s == SKIP_LITERAL:
             return go(env)
+        if isinstance(st, ast.Return) and self.getter is not None:
+            if st.value is None or in_loop:
+                raise Refuse(f"`{s}` in a method that returns a value")
+            t, k = self.ex(st.value, env)
+            if not (k == self.getter or (k[0] == self.getter[0] and k[0] in ("list", "set"))):
+                raise Refuse(f"`{s}`: the value is a {k[0]}, the method returns a {self.getter[0]}")
+            return t
         if isinstance(st, ast.Return):
             if st.value is not None and U(st.value) != "None":
                 raise Refuse(f"`{s}`: only a bare return is translated")
@@ -508,6 +547,17 @@ class Compiler:
                     kinds[var] = L(vk) if rk[1] == UNK else rk
                     env2 = env2.copy(kinds=kinds)
                 return f"let {var} := {nv} in\n  {go(env2)}"
+            if isinstance(f, ast.Attribute) and f.attr == "extend" and len(c.args) == 1 and not c.keywords and isinstance(f.value, ast.Name) \
+                    and f.value.id in env.fresh and isinstance(c.args[0], (ast.GeneratorExp, ast.ListComp)):
+                n = f.value.id
+                if env.kinds[n][0] != "list":
+                    raise Refuse(f"`{s}`: extend on a non-list")
+                g = c.args[0]
+                lc = ast.ListComp(elt=g.elt, generators=g.generators)
+                vt, vk = self.ex(lc, env)
+                kinds = dict(env.kinds)
+                kinds[n] = vk if env.kinds[n][1] == UNK else env.kinds[n]
+                return f"let {n} := ({n} ++ {vt}) in\n  {go(env.copy(kinds=kinds))}"
             if isinstance(f, ast.Attribute) and f.attr == "sort" and isinstance(f.value, ast.Name) and not c.args \
                     and [U(k) for k in c.keywords] == ["key=lambda x: x[0]"] and f.value.id in env.fresh:
                 n = f.value.id
@@ -603,15 +653,25 @@ class Compiler:
             kinds.pop(d, None)
         return Env(kinds, facts, {n: s for n, s in before.alias.items()}, stale | before.stale, before.iters, fresh, inited)
 
+    getter = None
+
     def fn_final(self, env):
+        if self.getter is not None:
+            raise Refuse("control falls off the end of a method that returns a value")
+        return self._fn_final(env)
+
+    def _fn_final(self, env):
         if env.inited is not None and env.inited != set(KINDS):
             raise Refuse(f"__init__ leaves attributes unassigned: {sorted(set(KINDS) - env.inited)}")
         return "self"
 
-    def method(self, name):
+    def method(self, name, getter=None):
         fn = self.fns.get(name)
         if fn is None:
             raise Refuse(f"method `{name}` not found")
+        self.getter = getter[1] if getter else None
+        if getter and [U(d) for d in fn.decorator_list] == ["property"]:
+            fn = ast.FunctionDef(name=fn.name, args=fn.args, body=fn.body, decorator_list=[], returns=fn.returns, lineno=fn.lineno)
         if fn.decorator_list or fn.args.vararg or fn.args.kwarg or fn.args.kwonlyargs or fn.args.posonlyargs:
             raise Refuse(f"`{name}`: unexpected signature")
         params, kinds = [], {}
@@ -630,8 +690,11 @@ class Compiler:
         else:
             env = Env(kinds)
         body = self.blk(list(fn.body), env, self.fn_final)
-        self.sigs[name] = [p[0] for p in params]
         ps = "".join(f" ({n} : {t})" for n, t in params)
+        if getter:
+            self.getter = None
+            return f"Definition gen_{name} (self : pyindex){ps} : {getter[0]} :=\n  {body}.\n\n"
+        self.sigs[name] = [p[0] for p in params]
         return f"Definition gen_{name} (self : pyindex){ps} : pyindex :=\n  {body}.\n\n"
 
 
@@ -674,7 +737,8 @@ def main():
         if len(cls) != 1:
             raise Refuse("class Index not found")
         c = Compiler(cls[0])
-        text = HEADER + "Definition refused : bool := false.\n\n" + "".join(c.method(m) for m in METHODS)
+        text = HEADER + "Definition refused : bool := false.\n\n" + "".join(c.method(m) for m in METHODS) + \
+            "(* methods that read the object and return a value *)\n" + "".join(c.method(n, (t, k)) for n, t, k in GETTERS)
     except (Refuse, SyntaxError, OSError, RecursionError) as r:
         refused = str(r)
         snap = open(FALLBACK_FILE).read().replace("Definition refused : bool := false.", "Definition refused : bool := true.")
